@@ -744,6 +744,12 @@ func (it *Interp) appendValues(fr *frame, s Slice, elems []Value, et *TInfo) Sli
 func (it *Interp) boundsCheck(fr *frame, idx *Term, n int, signed bool) {
 	if idx.op == OpConst {
 		v := idx.S()
+		if !signed {
+			v = int64(idx.c)
+			if idx.w == 64 && idx.c > 1<<62 {
+				v = -1
+			}
+		}
 		if v < 0 || v >= int64(n) {
 			it.goPanicf(fr, "index out of range [%d] with length %d", v, n)
 		}
@@ -774,7 +780,7 @@ func (it *Interp) indexAddr(fr *frame, ci *cinstr, x Value, idx *Term) Value {
 	default:
 		panic(fmt.Sprintf("indexAddr on %T", x))
 	}
-	it.boundsCheck(fr, idx, len(arr), true)
+	it.boundsCheck(fr, idx, len(arr), ci.idxSigned)
 	if idx.op == OpConst {
 		return Ptr{cell: &arr[idx.c], obj: obj, off: off + int64(idx.c)*ci.t.size, elems: arr[idx.c:]}
 	}
@@ -784,13 +790,13 @@ func (it *Interp) indexAddr(fr *frame, ci *cinstr, x Value, idx *Term) Value {
 func (it *Interp) index(fr *frame, ci *cinstr, x Value, idx *Term) Value {
 	switch xv := x.(type) {
 	case ArrayV:
-		it.boundsCheck(fr, idx, len(xv.a), true)
+		it.boundsCheck(fr, idx, len(xv.a), ci.idxSigned)
 		if idx.op == OpConst {
 			return copyVal(xv.a[idx.c])
 		}
 		return it.selectElem(fr, xv.a, idx, ci.t)
 	case Str:
-		it.boundsCheck(fr, idx, len(xv.b), true)
+		it.boundsCheck(fr, idx, len(xv.b), ci.idxSigned)
 		if idx.op == OpConst {
 			return xv.b[idx.c]
 		}
@@ -803,7 +809,7 @@ func (it *Interp) lookup(fr *frame, ci *cinstr, ins *ssa.Lookup, x Value, k Valu
 	switch xv := x.(type) {
 	case Str:
 		idx := k.(*Term)
-		it.boundsCheck(fr, idx, len(xv.b), true)
+		it.boundsCheck(fr, idx, len(xv.b), ci.idxSigned)
 		if idx.op == OpConst {
 			return xv.b[idx.c]
 		}
